@@ -1,12 +1,365 @@
-(* L6 Syntax — string-level round trip: the string that flatten prints lexes
-   to the token sequence of Flatten.flatten, hence parses back to the tree. *)
+(* L6 Syntax — print then re-parse.  Token level: the token sequence of
+   Flatten.flatten is the yield of a fully parenthesised surface tree of the
+   whole grammar (RoundtripSpec.xembed) that respects the table and denotes
+   the tree, hence parses back to it (quantifiers and LET included).  String
+   level: the string that flatten prints lexes to that token sequence. *)
 From Coq Require Import List String Ascii NArith Bool Lia.
 From Omega Require Import L6Syntax.Tokens L6Syntax.TreeInd L6Syntax.Lexer
   L6Syntax.Parser L6Syntax.Flatten L6Syntax.Frontend L6Syntax.LexSpec
-  L6Syntax.PrecSpec L6Syntax.RoundtripSpec L6Syntax.LexerProofs
-  L6Syntax.ParserProofs.
+  L6Syntax.PrecSpec L6Syntax.PrecFullSpec L6Syntax.RoundtripSpec
+  L6Syntax.LexerProofs L6Syntax.ParserProofs L6Syntax.PrecFullProofs.
 Import ListNotations.
 Local Open Scope string_scope.
+
+(* ---- helpers on the list predicates of the fragment ---- *)
+Lemma allP_Forall : forall (P : tree -> Prop) l, allP P l <-> Forall P l.
+Proof.
+  induction l as [|x r IH]; simpl; split; intro H; auto.
+  - destruct H as [Hx Hr]. constructor; [exact Hx | apply IH; exact Hr].
+  - inversion H; subst. split; [assumption | apply IH; assumption].
+Qed.
+
+Lemma allP_mp : forall (A B : tree -> Prop) l,
+  allP A l -> Forall (fun x => A x -> B x) l -> Forall B l.
+Proof.
+  induction l as [|x r IH]; intros HA HF; [constructor|].
+  destruct HA as [Hx Hr]. inversion HF; subst. constructor; auto.
+Qed.
+
+(* a definition of LET in the fragment, with a fact about its body *)
+Definition is_def (A : tree -> Prop) (d : tree) : Prop :=
+  exists n e, d = Bin CBinary "==" (Term KOpname n) e /\ A e.
+
+Lemma def_okP_is_def : forall (A : tree -> Prop) d, def_okP A d <-> is_def A d.
+Proof.
+  intros A d. split.
+  - destruct d as [| |c o l r| |]; simpl; try contradiction.
+    destruct c; try contradiction. destruct l as [k n| | | |]; try contradiction.
+    destruct k; try contradiction. intros [-> H]. exists n, r. auto.
+  - intros [n [e [-> H]]]. simpl. auto.
+Qed.
+
+Lemma defs_mp : forall (A B : tree -> Prop) ds,
+  allP (def_okP A) ds -> Forall (def_body_P (fun t => A t -> B t)) ds ->
+  Forall (is_def B) ds.
+Proof.
+  induction ds as [|d r IH]; intros HA HF; [constructor|].
+  destruct HA as [Hd Hr]. inversion HF as [|? ? Hb Hbr]; subst.
+  constructor; [|auto].
+  apply def_okP_is_def in Hd. destruct Hd as [n [e [-> He]]].
+  exists n, e. simpl in Hb. auto.
+Qed.
+
+Lemma allP_defs : forall (A : tree -> Prop) ds,
+  allP (def_okP A) ds <-> Forall (is_def A) ds.
+Proof.
+  intros A ds. rewrite allP_Forall.
+  split; apply Forall_impl; intro d; apply def_okP_is_def.
+Qed.
+
+(* the two new forms of the fragment, spelled out *)
+Lemma flat_ok_quant : forall T optok op po vs body,
+  flat_ok T optok (Opr op [Opr po vs; body]) <->
+  ((op = "\A" \/ op = "\E") /\ po = "params"
+   /\ (tty (optok op) = "FORALL" \/ tty (optok op) = "EXISTS") /\ tval (optok op) = op
+   /\ vs <> [] /\ Forall (flat_ok T optok) vs /\ flat_ok T optok body).
+Proof. intros. cbn [flat_ok]. rewrite allP_Forall. reflexivity. Qed.
+
+Lemma flat_ok_let : forall T optok op ds body,
+  flat_ok T optok (Opr op [Lst ds; body]) <->
+  (op = "LET" /\ tty (optok op) = "LET" /\ tval (optok op) = op
+   /\ ds <> [] /\ Forall (is_def (flat_ok T optok)) ds /\ flat_ok T optok body).
+Proof. intros. cbn [flat_ok]. rewrite allP_defs. reflexivity. Qed.
+
+Section Tok.
+Local Open Scope list_scope.
+Variable T : ptable.
+Hypothesis HokF : table_ok_full T = true.
+Variable optok : string -> token.
+Local Notation flat_ok := (flat_ok T optok).
+Local Notation xembed := (xembed optok).
+Local Notation xdef := (xdef optok).
+Local Notation flatten := (flatten optok).
+
+Let Hok : table_ok T = true := PrecFullProofs.Hok T HokF.
+
+(* what the induction carries for a tree of the fragment *)
+Definition emb_ok (t : tree) : Prop :=
+  xyield (xembed t) = flatten t /\ xerase T (xembed t) = t
+  /\ xwf T (xembed t) /\ xrespects T (xembed t).
+
+(* images of xembed are atoms, parenthesised, or ite(...): closed on both
+   edges *)
+Lemma xembed_fits : forall t m, xfits T m (xembed t).
+Proof.
+  destruct t as [k v|op x|c op l r|op args|xs]; intros; cbn; auto.
+  - destruct k; cbn; auto. destruct (is_neg v); cbn; auto.
+  - destruct args as [|a [|b [|c [|d args]]]]; cbn; auto.
+    destruct a as [| | |o [|v vs]|[|d ds]]; cbn; auto.
+Qed.
+
+Lemma xembed_rok : forall t o, not_dots o -> xrok T o (xembed t).
+Proof.
+  destruct t as [k v|op x|c op l r|op args|xs]; intros; cbn; auto.
+  - destruct k; cbn; auto. destruct (is_neg v); cbn; auto.
+  - destruct args as [|a [|b [|c [|d args]]]]; cbn; auto.
+    destruct a as [| | |o' [|v vs]|[|d ds]]; cbn; auto.
+Qed.
+
+(* unfolding equations of the mutual fixpoints of PrecFullSpec.v (all by
+   conversion), so that the proofs below never unfold them *)
+Section Eqs.
+Variables (e x l r a b c : xt) (t lp rp kw c1 c2 col i n d : token)
+  (ls : xlist) (ds : xdefs).
+Lemma ly_L1 : lyield (L1 e) = xyield e. Proof. reflexivity. Qed.
+Lemma ly_LS : lyield (LS e t ls) = xyield e ++ t :: lyield ls. Proof. reflexivity. Qed.
+Lemma le_L1 : lerase T (L1 e) = [xerase T e]. Proof. reflexivity. Qed.
+Lemma le_LS : lerase T (LS e t ls) = xerase T e :: lerase T ls. Proof. reflexivity. Qed.
+Lemma lw_L1 : lwf T (L1 e) = xwf T e. Proof. reflexivity. Qed.
+Lemma lw_LS : lwf T (LS e t ls) = (xwf T e /\ tty t = "COMMA" /\ lwf T ls).
+Proof. reflexivity. Qed.
+Lemma lr_L1 : lrespects T (L1 e) = xrespects T e. Proof. reflexivity. Qed.
+Lemma lr_LS : lrespects T (LS e t ls) = (xrespects T e /\ lrespects T ls).
+Proof. reflexivity. Qed.
+Lemma dy_D1 : dyield (D1 n d e) = n :: d :: xyield e. Proof. reflexivity. Qed.
+Lemma dy_DS : dyield (DS n d e ds) = n :: d :: xyield e ++ dyield ds.
+Proof. reflexivity. Qed.
+Lemma de_D1 : derase T (D1 n d e)
+  = [Bin CBinary "==" (Term KOpname (tval n)) (xerase T e)]. Proof. reflexivity. Qed.
+Lemma de_DS : derase T (DS n d e ds)
+  = Bin CBinary "==" (Term KOpname (tval n)) (xerase T e) :: derase T ds.
+Proof. reflexivity. Qed.
+Lemma dw_D1 : dwf T (D1 n d e) = (tty n = "NAME" /\ tty d = "DEF" /\ xwf T e).
+Proof. reflexivity. Qed.
+Lemma dw_DS : dwf T (DS n d e ds)
+  = (tty n = "NAME" /\ tty d = "DEF" /\ xwf T e /\ dwf T ds). Proof. reflexivity. Qed.
+Lemma dr_D1 : drespects T (D1 n d e)
+  = (xrespects T e /\ xfits T (rule_bind T "DEF") e). Proof. reflexivity. Qed.
+Lemma dr_DS : drespects T (DS n d e ds)
+  = (xrespects T e /\ xfits T (rule_bind T "DEF") e /\ drespects T ds).
+Proof. reflexivity. Qed.
+
+Lemma xy_paren : xyield (XParen lp x rp) = lp :: xyield x ++ [rp]. Proof. reflexivity. Qed.
+Lemma xe_paren : xerase T (XParen lp x rp) = xerase T x. Proof. reflexivity. Qed.
+Lemma xw_paren : xwf T (XParen lp x rp)
+  = (tty lp = "LPAREN" /\ xwf T x /\ tty rp = "RPAREN"). Proof. reflexivity. Qed.
+Lemma xr_paren : xrespects T (XParen lp x rp) = xrespects T x. Proof. reflexivity. Qed.
+
+Lemma xy_pre : xyield (XPre t x) = t :: xyield x. Proof. reflexivity. Qed.
+Lemma xe_pre : xerase T (XPre t x) = Un (tval t) (xerase T x). Proof. reflexivity. Qed.
+Lemma xw_pre : xwf T (XPre t x) = (pt_pre T (tty t) <> None /\ xwf T x).
+Proof. reflexivity. Qed.
+Lemma xr_pre : xrespects T (XPre t x) = (xrespects T x /\ xfits T (pre_pbp T t) x).
+Proof. reflexivity. Qed.
+
+Lemma xy_bin : xyield (XBin t l r) = xyield l ++ t :: xyield r. Proof. reflexivity. Qed.
+Lemma xe_bin : xerase T (XBin t l r)
+  = match pt_bin T (tty t) with
+    | Some (c, _, _) => Bin c (tval t) (xerase T l) (xerase T r)
+    | None => Bin CBinary (tval t) (xerase T l) (xerase T r)
+    end. Proof. reflexivity. Qed.
+Lemma xw_bin : xwf T (XBin t l r) = (pt_bin T (tty t) <> None /\ xwf T l /\ xwf T r).
+Proof. reflexivity. Qed.
+Lemma xr_bin : xrespects T (XBin t l r)
+  = (xrespects T l /\ xrespects T r /\ xrok T (Some t) l /\ xfits T (bin_rbp T t) r).
+Proof. reflexivity. Qed.
+
+Lemma xy_ite : xyield (XIte kw lp a c1 b c2 c rp)
+  = kw :: lp :: xyield a ++ c1 :: xyield b ++ c2 :: xyield c ++ [rp].
+Proof. reflexivity. Qed.
+Lemma xe_ite : xerase T (XIte kw lp a c1 b c2 c rp)
+  = Opr (tval kw) [xerase T a; xerase T b; xerase T c]. Proof. reflexivity. Qed.
+Lemma xw_ite : xwf T (XIte kw lp a c1 b c2 c rp)
+  = (tty kw = "ITE" /\ tty lp = "LPAREN" /\ xwf T a /\ tty c1 = "COMMA" /\ xwf T b
+     /\ tty c2 = "COMMA" /\ xwf T c /\ tty rp = "RPAREN"). Proof. reflexivity. Qed.
+Lemma xr_ite : xrespects T (XIte kw lp a c1 b c2 c rp)
+  = (xrespects T a /\ xrespects T b /\ xrespects T c). Proof. reflexivity. Qed.
+
+Lemma xy_quant : xyield (XQuant kw ls col b) = kw :: lyield ls ++ col :: xyield b.
+Proof. reflexivity. Qed.
+Lemma xe_quant : xerase T (XQuant kw ls col b)
+  = Opr (tval kw) [Opr "params" (lerase T ls); xerase T b]. Proof. reflexivity. Qed.
+Lemma xw_quant : xwf T (XQuant kw ls col b)
+  = ((tty kw = "FORALL" \/ tty kw = "EXISTS") /\ lwf T ls /\ tty col = "COLON"
+     /\ xwf T b). Proof. reflexivity. Qed.
+Lemma xr_quant : xrespects T (XQuant kw ls col b)
+  = (lrespects T ls /\ xrespects T b /\ xfits T (rule_bind T "COLON") b).
+Proof. reflexivity. Qed.
+
+Lemma xy_let : xyield (XLet kw ds i b) = kw :: dyield ds ++ i :: xyield b.
+Proof. reflexivity. Qed.
+Lemma xe_let : xerase T (XLet kw ds i b)
+  = Opr (tval kw) [Lst (derase T ds); xerase T b]. Proof. reflexivity. Qed.
+Lemma xw_let : xwf T (XLet kw ds i b)
+  = (tty kw = "LET" /\ dwf T ds /\ tty i = "IN_EXPR" /\ xwf T b). Proof. reflexivity. Qed.
+Lemma xr_let : xrespects T (XLet kw ds i b)
+  = (drespects T ds /\ xrespects T b /\ xfits T (rule_bind T "LET_IN") b).
+Proof. reflexivity. Qed.
+End Eqs.
+
+Ltac xeqs :=
+  rewrite ?xy_paren, ?xe_paren, ?xw_paren, ?xr_paren, ?xy_pre, ?xe_pre, ?xw_pre, ?xr_pre,
+    ?xy_bin, ?xe_bin, ?xw_bin, ?xr_bin, ?xy_ite, ?xe_ite, ?xw_ite, ?xr_ite,
+    ?xy_quant, ?xe_quant, ?xw_quant, ?xr_quant, ?xy_let, ?xe_let, ?xw_let, ?xr_let.
+
+(* the equations of xembed and flatten on the forms of the fragment *)
+Lemma xembed_un : forall op x,
+  xembed (Un op x) = XParen LPt (XPre (optok op) (xembed x)) RPt.
+Proof. reflexivity. Qed.
+Lemma xembed_bin : forall c op l r,
+  xembed (Bin c op l r) = XParen LPt (XBin (optok op) (xembed l) (xembed r)) RPt.
+Proof. reflexivity. Qed.
+Lemma xembed_ite : forall op a b c,
+  xembed (Opr op [a; b; c])
+  = XIte (optok op) LPt (xembed a) CMt (xembed b) CMt (xembed c) RPt.
+Proof. reflexivity. Qed.
+Lemma xembed_quant : forall op po v vs body,
+  xembed (Opr op [Opr po (v :: vs); body])
+  = XParen LPt (XQuant (optok op) (mk_xlist (xembed v) (map xembed vs)) COLONt
+                       (xembed body)) RPt.
+Proof. reflexivity. Qed.
+Lemma xembed_let : forall op d ds body,
+  xembed (Opr op [Lst (d :: ds); body])
+  = XParen LPt (XLet (optok op) (mk_xdefs (xdef d) (map xdef ds)) INt
+                     (xembed body)) RPt.
+Proof. reflexivity. Qed.
+
+Lemma flatten_un : forall op x, flatten (Un op x) = LPt :: optok op :: flatten x ++ [RPt].
+Proof. reflexivity. Qed.
+Lemma flatten_bin : forall c op l r,
+  flatten (Bin c op l r) = LPt :: flatten l ++ optok op :: flatten r ++ [RPt].
+Proof. reflexivity. Qed.
+Lemma flatten_ite : forall op a b c,
+  flatten (Opr op [a; b; c])
+  = optok op :: LPt :: flatten a ++ CMt :: flatten b ++ CMt :: flatten c ++ [RPt].
+Proof.
+  intros. cbn [Flatten.flatten sep_toks].
+  repeat (rewrite <- app_assoc; cbn [app]). reflexivity.
+Qed.
+Lemma flatten_quant : forall op po vs body, is_quant_op op = true ->
+  flatten (Opr op [Opr po vs; body])
+  = LPt :: optok op :: sep_toks flatten vs ++ COLONt :: flatten body ++ [RPt].
+Proof. intros op po vs body H. cbn [Flatten.flatten]. rewrite H. reflexivity. Qed.
+Lemma flatten_let : forall op ds body, is_let_op op = true ->
+  flatten (Opr op [Lst ds; body])
+  = LPt :: optok op :: flat_map (def_toks flatten) ds ++ INt :: flatten body ++ [RPt].
+Proof. intros op ds body H. cbn [Flatten.flatten]. rewrite H. reflexivity. Qed.
+
+(* binders *)
+Lemma xlist_ok : forall vs v, Forall emb_ok (v :: vs) ->
+  lyield (mk_xlist (xembed v) (map xembed vs)) = sep_toks flatten (v :: vs)
+  /\ lerase T (mk_xlist (xembed v) (map xembed vs)) = v :: vs
+  /\ lwf T (mk_xlist (xembed v) (map xembed vs))
+  /\ lrespects T (mk_xlist (xembed v) (map xembed vs)).
+Proof.
+  induction vs as [|w r IH]; intros v H; inversion H as [|? ? Hv Hr]; subst;
+    destruct Hv as [Y [E [W R]]].
+  - cbn [map mk_xlist]. rewrite ly_L1, le_L1, lw_L1, lr_L1, E. auto.
+  - destruct (IH w Hr) as [Y' [E' [W' R']]].
+    cbn [map mk_xlist]. rewrite ly_LS, le_LS, lw_LS, lr_LS, Y, Y', E, E'.
+    repeat split; auto.
+Qed.
+
+(* definitions *)
+Lemma xdef_eq : forall c o k n e, xdef (Bin c o (Term k n) e) = (Tok "NAME" n, xembed e).
+Proof. reflexivity. Qed.
+
+Lemma xdefs_ok : forall ds d, Forall (is_def emb_ok) (d :: ds) ->
+  dyield (mk_xdefs (xdef d) (map xdef ds)) = flat_map (def_toks flatten) (d :: ds)
+  /\ derase T (mk_xdefs (xdef d) (map xdef ds)) = d :: ds
+  /\ dwf T (mk_xdefs (xdef d) (map xdef ds))
+  /\ drespects T (mk_xdefs (xdef d) (map xdef ds)).
+Proof.
+  induction ds as [|d2 r IH]; intros d H; inversion H as [|? ? Hd Hr]; subst;
+    destruct Hd as [n [e [-> [Y [E [W R]]]]]].
+  - cbn [map mk_xdefs]. rewrite xdef_eq. cbn [fst snd].
+    rewrite dy_D1, de_D1, dw_D1, dr_D1, Y, E.
+    repeat split; auto using xembed_fits.
+    cbn [flat_map def_toks Flatten.flatten term_toks]. rewrite app_nil_r. reflexivity.
+  - destruct (IH d2 Hr) as [Y' [E' [W' R']]].
+    cbn [map mk_xdefs]. rewrite xdef_eq. cbn [fst snd].
+    rewrite dy_DS, de_DS, dw_DS, dr_DS, Y', E', Y, E.
+    repeat split; auto using xembed_fits.
+Qed.
+
+Lemma is_quant_true : forall op, op = "\A" \/ op = "\E" -> is_quant_op op = true.
+Proof. intros op [->| ->]; reflexivity. Qed.
+
+Lemma xembed_ok : forall t, flat_ok t -> emb_ok t.
+Proof.
+  induction t using tree_ind2; intros F.
+  - (* terminals *)
+    unfold emb_ok. destruct k; simpl in F; try contradiction.
+    + repeat split.
+    + cbn [RoundtripSpec.xembed Flatten.flatten term_toks].
+      destruct (is_neg v) eqn:Hn; repeat split.
+      destruct v as [|c0 w]; [discriminate|]. simpl in Hn.
+      apply Ascii.eqb_eq in Hn. subst c0. reflexivity.
+    + destruct F as [Hty Hv]. repeat split; auto. cbn. rewrite Hv. reflexivity.
+    + repeat split. cbn. rewrite <- F. reflexivity.
+  - (* unary *)
+    simpl in F. destruct F as [Hp [Hv Hx]]. destruct (IHt Hx) as [Y [E [W R]]].
+    unfold emb_ok. rewrite xembed_un, flatten_un. xeqs. rewrite Y, E, Hv.
+    repeat split; auto using xembed_fits.
+  - (* binary *)
+    simpl in F. destruct F as [Hc [Hv [Hl Hr]]].
+    destruct (IHt1 Hl) as [Y1 [E1 [W1 R1]]]. destruct (IHt2 Hr) as [Y2 [E2 [W2 R2]]].
+    unfold emb_ok. rewrite xembed_bin, flatten_bin. xeqs. rewrite Y1, Y2, E1, E2, Hv.
+    unfold bin_class in Hc.
+    destruct (pt_bin T (tty (optok op))) as [[[c' a] lv]|] eqn:Eb; [|discriminate].
+    inversion Hc; subst c'.
+    repeat split; auto using xembed_fits; try discriminate.
+    + rewrite <- app_assoc. reflexivity.
+    + apply xembed_rok. simpl.
+      apply (op_not_nonop T Hok (optok op) "DOTS"); [simpl; tauto | left; congruence].
+  - (* operators *)
+    destruct args as [|a [|b [|c [|d args]]]]; simpl in F; try contradiction.
+    + (* two operands: quantifier or LET *)
+      inversion H as [|? ? Pa H1]; subst. inversion H1 as [|? ? Pb _]; subst.
+      inversion H0 as [|? ? Sa _]; subst.
+      destruct a as [| | |po vs|ds]; try contradiction.
+      * (* \A / \E *)
+        destruct F as [Hop [Hpo [Hty [Hv [Hne [Hall Hbody]]]]]].
+        destruct vs as [|v vs]; [congruence|].
+        simpl in Sa.
+        destruct (xlist_ok vs v (allP_mp _ _ _ Hall Sa)) as [Yl [El [Wl Rl]]].
+        destruct (Pb Hbody) as [Yb [Eb [Wb Rb]]].
+        unfold emb_ok.
+        rewrite xembed_quant, (flatten_quant op po _ _ (is_quant_true op Hop)). xeqs.
+        rewrite Yl, Yb, El, Eb, Hv, Hpo.
+        repeat split; auto using xembed_fits.
+        cbn [app]. rewrite <- app_assoc. reflexivity.
+      * (* LET *)
+        destruct F as [Hop [Hty [Hv [Hne [Hall Hbody]]]]].
+        destruct ds as [|d ds]; [congruence|].
+        simpl in Sa.
+        destruct (xdefs_ok ds d (defs_mp _ _ _ Hall Sa)) as [Yd [Ed [Wd Rd]]].
+        destruct (Pb Hbody) as [Yb [Eb [Wb Rb]]].
+        unfold emb_ok.
+        rewrite xembed_let, (flatten_let op _ _ (f_equal is_let_op Hop)). xeqs.
+        rewrite Yd, Yb, Ed, Eb, Hv.
+        repeat split; auto using xembed_fits.
+        cbn [app]. rewrite <- app_assoc. reflexivity.
+    + (* ite ( a , b , c ) *)
+      destruct F as [Hk [Hv [Ha [Hb Hc]]]].
+      inversion H as [|? ? Pa H1]; subst. inversion H1 as [|? ? Pb H2]; subst.
+      inversion H2 as [|? ? Pc _]; subst.
+      destruct (Pa Ha) as [Y1 [E1 [W1 R1]]]. destruct (Pb Hb) as [Y2 [E2 [W2 R2]]].
+      destruct (Pc Hc) as [Y3 [E3 [W3 R3]]].
+      unfold emb_ok. rewrite xembed_ite, flatten_ite. xeqs.
+      rewrite Y1, Y2, Y3, E1, E2, E3, Hv.
+      repeat split; auto.
+  - simpl in F. contradiction.
+Qed.
+
+(* roundtrip: flatten prints a token sequence that parses back to the tree *)
+Theorem roundtrip : forall t, flat_ok t -> parse T (flatten t) = Some t.
+Proof.
+  intros t F. destruct (xembed_ok t F) as [Y [E [W R]]].
+  rewrite <- Y, (prec_determines_tree_full T HokF _ W R), E. reflexivity.
+Qed.
+
+End Tok.
 
 Section RT.
 Variable rules : list lexrule.
@@ -35,13 +388,91 @@ Lemma R_tok' : forall sp c s ts tok,
   ltok sp c = Some tok -> hd_char s = c -> Rendered s ts -> Rendered (sp ++ s) (tok :: ts).
 Proof. intros. subst c. apply R_tok; assumption. Qed.
 
+(* equations of flatten_str on the two forms printed in concrete syntax *)
+Lemma flatten_str_quant : forall op po vs body, is_quant_op op = true ->
+  flatten_str (Opr op [Opr po vs; body])
+  = "(" ++ " " ++ op ++ " " ++ join ", " (map flatten_str vs) ++ ":" ++ " "
+    ++ flatten_str body ++ " " ++ ")".
+Proof. intros op po vs body H. cbn [flatten_str]. rewrite H. reflexivity. Qed.
+
+Lemma flatten_str_let : forall op ds body, is_let_op op = true ->
+  flatten_str (Opr op [Lst ds; body])
+  = "(" ++ " " ++ "LET" ++ " " ++ join " " (map def_str ds) ++ " " ++ "IN" ++ " "
+    ++ flatten_str body ++ " " ++ ")".
+Proof. intros op ds body H. cbn [flatten_str]. rewrite H. reflexivity. Qed.
+
+(* what the induction carries: the printed string of t, followed by tail, is
+   a rendering of the tokens of t followed by those of tail *)
+Definition rend_ok (t : tree) : Prop :=
+  forall nx tail ts',
+    sflat t nx -> hd_char tail = nx -> Rendered tail ts' ->
+    Rendered (flatten_str t ++ tail) (flatten optok t ++ ts')%list.
+
+(* v1, v2, ..., vn followed by ":" *)
+Lemma binders_rendered : forall vs, Forall rend_ok vs ->
+  forall tail ts',
+    sflat_binders rules reserved values ignore sflat vs ->
+    hd_char tail = Some ":"%char -> Rendered tail ts' ->
+    Rendered (join ", " (map flatten_str vs) ++ tail)
+             (sep_toks (flatten optok) vs ++ ts')%list.
+Proof.
+  induction vs as [|v r IH]; intros HF tail ts' Hs Hc HR; [exact HR|].
+  inversion HF as [|? ? Pv Pr]; subst. destruct r as [|w r].
+  - exact (Pv _ tail ts' Hs Hc HR).
+  - destruct Hs as [Hv [Hcm Hr]].
+    change (join ", " (map flatten_str (v :: w :: r)))
+      with (flatten_str v ++ "," ++ " " ++ join ", " (map flatten_str (w :: r))).
+    change (sep_toks (flatten optok) (v :: w :: r))
+      with (flatten optok v ++ CM :: sep_toks (flatten optok) (w :: r))%list.
+    rewrite !sapp_assoc. rewrite <- app_assoc. simpl app.
+    eapply Pv; [exact Hv | reflexivity |].
+    eapply (R_tok' ","); [exact Hcm | reflexivity |]. apply R_blank.
+    apply IH; assumption.
+Qed.
+
+(* n1 == e1 n2 == e2 ... followed by a blank *)
+Lemma defs_rendered : forall ds, Forall (def_body_P rend_ok) ds ->
+  forall tail ts',
+    allP (sflat_def rules reserved values ignore sflat) ds ->
+    hd_char tail = sp -> Rendered tail ts' ->
+    Rendered (join " " (map def_str ds) ++ tail)
+             (flat_map (def_toks (flatten optok)) ds ++ ts')%list.
+Proof.
+  induction ds as [|d r IH]; intros HF tail ts' Hs Hc HR; [exact HR|].
+  inversion HF as [|? ? Pd Pr]; subst. destruct Hs as [Hd Hr].
+  destruct d as [| |c o l e| |]; try contradiction.
+  destruct l as [k n| | | |]; try contradiction. destruct k; try contradiction.
+  destruct Hd as [Hn [Hdf He]]. simpl in Pd.
+  assert (X : forall tl tk, hd_char tl = sp -> Rendered tl tk ->
+    Rendered (def_str (Bin c o (Term KOpname n) e) ++ tl)
+             (def_toks (flatten optok) (Bin c o (Term KOpname n) e) ++ tk)%list).
+  { intros tl tk Hh Ht.
+    change (def_str (Bin c o (Term KOpname n) e))
+      with (n ++ " " ++ "==" ++ " " ++ flatten_str e).
+    change (def_toks (flatten optok) (Bin c o (Term KOpname n) e))
+      with (Tok "NAME" n :: DFt :: flatten optok e)%list.
+    rewrite !sapp_assoc. simpl app.
+    eapply R_tok'; [exact Hn | reflexivity |]. apply R_blank.
+    eapply (R_tok' "=="); [exact Hdf | reflexivity |]. apply R_blank.
+    eapply Pd; [exact He | exact Hh | exact Ht]. }
+  destruct r as [|d2 r].
+  - change (flat_map (def_toks (flatten optok)) [Bin c o (Term KOpname n) e])
+      with (def_toks (flatten optok) (Bin c o (Term KOpname n) e) ++ [])%list.
+    rewrite <- app_assoc. apply X; assumption.
+  - change (join " " (map def_str (Bin c o (Term KOpname n) e :: d2 :: r)))
+      with (def_str (Bin c o (Term KOpname n) e) ++ " " ++ join " " (map def_str (d2 :: r))).
+    change (flat_map (def_toks (flatten optok)) (Bin c o (Term KOpname n) e :: d2 :: r))
+      with (def_toks (flatten optok) (Bin c o (Term KOpname n) e)
+            ++ flat_map (def_toks (flatten optok)) (d2 :: r))%list.
+    rewrite !sapp_assoc. rewrite <- app_assoc.
+    apply X; [reflexivity|]. apply R_blank. apply IH; assumption.
+Qed.
+
 (* the printed string of t, followed by tail, is a rendering of the tokens
    of t followed by those of tail *)
-Lemma sflat_rendered : forall t nx tail ts',
-  sflat t nx -> hd_char tail = nx -> Rendered tail ts' ->
-  Rendered (flatten_str t ++ tail) (flatten optok t ++ ts')%list.
+Lemma sflat_rendered : forall t, rend_ok t.
 Proof.
-  induction t using tree_ind'; intros nx tail ts' Hs Hc HR.
+  induction t using tree_ind2; intros nx tail ts' Hs Hc HR.
   - destruct k; simpl in Hs |- *; try contradiction.
     + eapply R_tok'; eauto.
     + destruct (is_neg v) eqn:Hn.
@@ -90,27 +521,54 @@ Proof.
     rewrite <- ?app_assoc; simpl app.
     eapply IHt2; [exact Hr | reflexivity |]. apply R_blank.
     eapply (R_tok' ")"); eauto.
-  - (* Opr: ite(a, b, d) *)
+  - (* Opr *)
     destruct args as [|a [|b [|d [|e args]]]]; simpl in Hs; try contradiction.
-    destruct Hs as [Hop [HL [Ha [Hcm [Hb [Hd HRp]]]]]].
-    inversion H as [|? ? Pa H1]; subst. inversion H1 as [|? ? Pb H2]; subst.
-    inversion H2 as [|? ? Pd H3]; subst.
-    change (flatten_str (Opr op [a; b; d]))
-      with (op ++ "(" ++ (flatten_str a ++ ", " ++ flatten_str b ++ ", " ++ flatten_str d) ++ ")").
-    change (flatten optok (Opr op [a; b; d]))
-      with (optok op :: LP :: (flatten optok a ++ CM :: flatten optok b ++ CM :: flatten optok d) ++ [RP])%list.
-    rewrite !sapp_assoc. repeat (rewrite <- app_assoc; simpl app).
-    eapply R_tok'; [exact Hop | reflexivity |].
-    eapply (R_tok' "("); [exact HL | |].
-    { destruct (flatten_str a); reflexivity. }
-    change (", " ++ flatten_str b ++ ", " ++ flatten_str d ++ ")" ++ tail)
-      with ("," ++ " " ++ flatten_str b ++ "," ++ " " ++ flatten_str d ++ ")" ++ tail).
-    eapply Pa; [exact Ha | reflexivity |].
-    eapply (R_tok' ","); [exact Hcm | reflexivity |]. apply R_blank.
-    eapply Pb; [exact Hb | reflexivity |].
-    eapply (R_tok' ","); [exact Hcm | reflexivity |]. apply R_blank.
-    eapply Pd; [exact Hd | reflexivity |].
-    eapply (R_tok' ")"); eauto.
+    + (* two operands: quantifier or LET *)
+      inversion H as [|? ? Pa H1]; subst. inversion H1 as [|? ? Pb _]; subst.
+      inversion H0 as [|? ? Sa _]; subst.
+      destruct a as [| | |po vs|ds]; try contradiction.
+      * (* ( op v1, v2: body ) *)
+        destruct Hs as [Hq [HL [Hop [Hvs [Hcl [Hb HRp]]]]]]. simpl in Sa.
+        rewrite (flatten_str_quant op po vs b Hq), (flatten_quant optok op po vs b Hq).
+        rewrite !sapp_assoc. simpl app. rewrite <- ?app_assoc. simpl app.
+        eapply (R_tok' "("); [exact HL | reflexivity |]. apply R_blank.
+        eapply R_tok'; [exact Hop | reflexivity |]. apply R_blank.
+        apply (binders_rendered vs Sa); [exact Hvs | reflexivity |].
+        eapply (R_tok' ":"); [exact Hcl | reflexivity |]. apply R_blank.
+        rewrite <- ?app_assoc; simpl app.
+        eapply (Pb sp); [exact Hb | reflexivity |]. apply R_blank.
+        eapply (R_tok' ")"); eauto.
+      * (* ( LET n1 == e1 n2 == e2 IN body ) *)
+        destruct Hs as [Hq [HL [Hop [Hds [Hin [Hb HRp]]]]]]. simpl in Sa.
+        rewrite (flatten_str_let op ds b Hq), (flatten_let optok op ds b Hq).
+        rewrite !sapp_assoc. simpl app. rewrite <- ?app_assoc. simpl app.
+        eapply (R_tok' "("); [exact HL | reflexivity |]. apply R_blank.
+        eapply (R_tok' "LET"); [exact Hop | reflexivity |]. apply R_blank.
+        apply (defs_rendered ds Sa); [exact Hds | reflexivity |]. apply R_blank.
+        eapply (R_tok' "IN"); [exact Hin | reflexivity |]. apply R_blank.
+        rewrite <- ?app_assoc; simpl app.
+        eapply (Pb sp); [exact Hb | reflexivity |]. apply R_blank.
+        eapply (R_tok' ")"); eauto.
+    + (* ite(a, b, d) *)
+      destruct Hs as [Hop [HL [Ha [Hcm [Hb [Hd HRp]]]]]].
+      inversion H as [|? ? Pa H1]; subst. inversion H1 as [|? ? Pb H2]; subst.
+      inversion H2 as [|? ? Pd H3]; subst.
+      change (flatten_str (Opr op [a; b; d]))
+        with (op ++ "(" ++ (flatten_str a ++ ", " ++ flatten_str b ++ ", " ++ flatten_str d) ++ ")").
+      change (flatten optok (Opr op [a; b; d]))
+        with (optok op :: LP :: (flatten optok a ++ CM :: flatten optok b ++ CM :: flatten optok d) ++ [RP])%list.
+      rewrite !sapp_assoc. repeat (rewrite <- app_assoc; simpl app).
+      eapply R_tok'; [exact Hop | reflexivity |].
+      eapply (R_tok' "("); [exact HL | |].
+      { destruct (flatten_str a); reflexivity. }
+      change (", " ++ flatten_str b ++ ", " ++ flatten_str d ++ ")" ++ tail)
+        with ("," ++ " " ++ flatten_str b ++ "," ++ " " ++ flatten_str d ++ ")" ++ tail).
+      eapply Pa; [exact Ha | reflexivity |].
+      eapply (R_tok' ","); [exact Hcm | reflexivity |]. apply R_blank.
+      eapply Pb; [exact Hb | reflexivity |].
+      eapply (R_tok' ","); [exact Hcm | reflexivity |]. apply R_blank.
+      eapply Pd; [exact Hd | reflexivity |].
+      eapply (R_tok' ")"); eauto.
   - simpl in Hs. contradiction.
 Qed.
 
@@ -118,7 +576,7 @@ Lemma sapp_nil_r : forall s : string, s ++ "" = s.
 Proof. induction s; simpl; [reflexivity|]. rewrite IHs. reflexivity. Qed.
 
 Variable T : ptable.
-Hypothesis Hok : table_ok T = true.
+Hypothesis Hok : table_ok_full T = true.
 Hypothesis Htab : lex_table_ok rules = true.
 Hypothesis Hign : ignore_ok ignore = true.
 
@@ -130,7 +588,7 @@ Proof.
   intros t Hf Hs. unfold parse_string, lex_string.
   assert (R : Rendered (flatten_str t) (flatten optok t)).
   { rewrite <- (sapp_nil_r (flatten_str t)), <- (app_nil_r (flatten optok t)).
-    eapply sflat_rendered; [exact Hs | reflexivity | constructor]. }
+    eapply (sflat_rendered t); [exact Hs | reflexivity | constructor]. }
   rewrite (lex_rendered rules reserved values ignore Htab Hign _ _ R).
   apply roundtrip; assumption.
 Qed.
